@@ -48,5 +48,6 @@ EmitCase ==
          mask |-> [i \in 1..64 |-> (i - 1) \in ms],
          by |-> [n \in Members |-> n \in q.by],
          roles |-> [n \in Members |-> RoleOf(n)],
+         arr |-> IF c.qs = 0 THEN <<>> ELSE <<[node |-> RoleOf(Recs[c.qs].n), ts |-> Recs[c.qs].ts, st |-> Recs[c.qs].st]>>,
          final |-> CodeFinal(q)]))
 =============================================================================
